@@ -405,7 +405,7 @@ class FnBlock:
         self.sigsub = []
 
 
-def render_fn(repo: Repo, fb: FnBlock, rules: Counter, info: dict) -> str:
+def render_fn(repo: Repo, fb: FnBlock, rules: Counter, info: dict, canary: bool = False) -> str:
     sig, body, line = repo.find_fn(fb.rel, fb.impl, fb.name, fb.nth)
     sig = strip_sig(sig)
     for (a, b) in fb.sigsub:
@@ -473,6 +473,14 @@ def render_fn(repo: Repo, fb: FnBlock, rules: Counter, info: dict) -> str:
                 raise Unsupported('bad hint position ' + where)
         else:
             raise Unsupported('bad hint position ' + where)
+    if canary:
+        # vacuity guard: assert(false) at function entry and at the start of every loop body
+        cid = info.setdefault('canaries', [])
+        cid.append((fb.name, 'entry'))
+        ins.append((0, f'\nassert(false); /*CANARY {len(cid) - 1}*/\n'))
+        for (p, o, c) in loops:
+            cid.append((fb.name, 'loop'))
+            ins.append((o + 1, f'\nassert(false); /*CANARY {len(cid) - 1}*/\n'))
     # stable order: by position; for equal positions keep directive order
     ins = sorted(enumerate(ins), key=lambda t: (t[1][0], t[0]))
     res, last = [], 0
@@ -526,7 +534,7 @@ def render_item(repo: Repo, rel, kind, name, opts, rules: Counter, info: dict) -
     return head + text + '\n'
 
 
-def build_unit(template_path: str, repo_root: str, verif_root: str):
+def build_unit(template_path: str, repo_root: str, verif_root: str, canary: bool = False):
     """-> (rust_text, info).  Raises LostAnchor / Unsupported."""
     repo = Repo(repo_root)
     rules = Counter()
@@ -608,7 +616,7 @@ def build_unit(template_path: str, repo_root: str, verif_root: str):
                     buf.append(lines[i])
                 i += 1
             first = len(out) + 1
-            out.extend(render_fn(repo, fb, rules, info).split('\n'))
+            out.extend(render_fn(repo, fb, rules, info, canary).split('\n'))
             fn_spans.append((first, len(out), fb.name))
         else:
             out.append(ln)
